@@ -264,7 +264,15 @@ namespace
           if ((on - r.point).norm() > 1e-6*unit) ctx.violation("C19/bezier/point-not-at-reported-parameter", detail("reported point is not the curve point at the reported parameter"));
           const double dr = (r.point - q).norm();
           if (std::fabs(std::fabs(r.distance) - dr) > 1e-6*unit) ctx.violation("C19/bezier/distance-inconsistent", detail("|reported distance| differs from the distance to the reported point"));
-          if (dr > dmin*(1+1e-6) + 1e-6*unit) ctx.violation("C19/bezier/closer-point-exists/" + shape, detail("a sampled curve point is noticeably closer than the reported closest point"));
+          if (dr > dmin*(1+1e-6) + 1e-6*unit)
+            {
+              // the missed foot lies on the first / last section and the curve end next to it is less than 2 percent farther: the recorded defect of the iteration
+              // (it loses such a foot) shows here as the foot of another section being reported instead of none at all
+              const double dend = seg == 0 ? (pts.front()-q).norm() : seg == nseg-1 ? (pts.back()-q).norm() : 1e300;
+              const bool near_end = dend/dmin - 1.0 < 0.02;
+              ctx.violation("C19/bezier/closer-point-exists/" + shape + (near_end ? "/missed-foot-is-interior-but-the-curve-end-next-to-it-is-less-than-2-percent-farther" : ""),
+                            detail("a sampled curve point is noticeably closer than the reported closest point"));
+            }
         }
   }
 
@@ -344,6 +352,33 @@ namespace
     bezier_judge(curve, pts, ps, "single-bend-family", unit, queries, ctx);
     ctx.nontrivial();
     if (idx % 37 == 1) ctx.sample(JObj().str("kernel", "bezier closest point, bend family").raw("polyline", ps).integer("queries", static_cast<long long>(queries.size())).done());
+  }
+
+  // ---------- hooks: many short sections curling one way (every bend below 60 degrees), check points up to 300 km away on a grid ----------
+  struct Hook { int n; double len, beta; };
+  void run_bezier_hook(const std::shared_ptr<std::vector<Hook>> &H, uint64_t idx, Ctx &ctx)
+  {
+    const Hook &h = (*H)[idx];
+    std::vector<Point<2>> pts;
+    double x = 0, y = 0, dir = 0, xmin = 0, xmax = 0, ymin = 0, ymax = 0;
+    pts.emplace_back(x, y, CoordinateSystem::cartesian);
+    for (int i = 1; i < h.n; ++i)
+      {
+        x += h.len * std::cos(dir); y += h.len * std::sin(dir);
+        pts.emplace_back(x, y, CoordinateSystem::cartesian);
+        xmin = std::min(xmin, x); xmax = std::max(xmax, x); ymin = std::min(ymin, y); ymax = std::max(ymax, y);
+        dir += h.beta * PI / 180;
+      }
+    const WorldBuilder::Objects::BezierCurve curve(pts);
+    std::string ps = "[";
+    for (size_t i = 0; i < pts.size(); ++i) ps += (i ? "," : "") + std::string("[") + num(pts[i][0]) + "," + num(pts[i][1]) + "]";
+    ps += "]";
+    std::vector<std::array<double,2>> queries;
+    const double step = 0.47e5;
+    for (double qx = xmin - 3e5 + 0.11e5; qx <= xmax + 3e5; qx += step) for (double qy = ymin - 3e5 + 0.07e5; qy <= ymax + 3e5; qy += step) queries.push_back({{qx, qy}});
+    bezier_judge(curve, pts, ps, "hook-family", 1e5, queries, ctx);
+    ctx.nontrivial();
+    if (idx % 7 == 1) ctx.sample(JObj().str("kernel", "bezier closest point, hook family").raw("polyline", ps).integer("queries", static_cast<long long>(queries.size())).done());
   }
 
   // ---------- Bezier in spherical coordinates: the kernel minimises the haversine of the angular distance ----------
@@ -554,6 +589,13 @@ int main(int argc, char **argv)
       Suite bb; bb.name = "bezier_bend"; bb.n = B->size(); bb.run = [B](uint64_t i, Ctx &c) { run_bezier_bend(B, i, c); };
       bb.bound = "trenches with one bend: segment lengths {100,300,500} km x {100,300,500} km x bends {" + std::string(th ? "-60..60 step 10 and +-45" : "+-30, +-45, +-60") + "} degrees x {3 coordinates, a 4th before, a 4th after}; 792 queries each on the curve normals around the bend, offsets 25..150 km on both sides";
       s.push_back(bb);
+    }
+    {
+      auto H = std::make_shared<std::vector<Hook>>();
+      for (int n : {5, 7, 9}) for (double len : {0.6e5, 1e5, 1.5e5}) for (double beta : (th ? std::vector<double>{-57, -40, -25, 25, 40, 57} : std::vector<double>{-40, 25, 57})) H->push_back({n, len, beta});
+      Suite hk; hk.name = "bezier_hook"; hk.n = H->size(); hk.run = [H](uint64_t i, Ctx &c) { run_bezier_hook(H, i, c); };
+      hk.bound = "trenches that curl one way: {5,7,9} coordinates x section lengths {60,100,150} km x bends {" + std::string(th ? "+-25, +-40, +-57" : "-40, 25, 57") + "} degrees at every coordinate; check points on a 47 km grid reaching 300 km beyond the trench";
+      s.push_back(hk);
     }
     {
       auto B = std::make_shared<std::vector<SphCurve>>();
